@@ -60,11 +60,14 @@ PROPS: dict = {
             "proof_modules": ["BBProps.C14", "BBProofs.Multiround", "BBProofs.Names"]},
     "C17": {"suites": [props_tree.c17], "rule": RULE_TREE + "; configuration stream: constructor with names / merge-function objects / "
             "no criterion x tolerance given or not, set_merge with every subset of its arguments, setters, reset"},
-    "C18": {"suites": [sk.suite_sk, props_tree.c01],
+    "C18": {"suites": [sk.suite_sk, sk.suite_assign, props_tree.c01],
             "rule": "generated data sets (several clusters of distinct and equal sizes) fitted through bblean.sklearn.BitBirch (packed) / "
                     "UnpackedBitBirch, compute_labels on/off, fit vs fit_predict; labels_, subcluster_centers_, predict and transform "
                     "(exact rationals) of non-empty query rows compared with the model; the assignment vector is also part of the "
-                    "V_out comparison of every tree history; non-trivial = fit with more than one cluster"},
+                    "V_out comparison of every tree history; one or two calls (fit / partial_fit / fit_predict in any combination) on one "
+                    "estimator, the centroids compared with the majority vote of the current clusters; S-ASSIGN: explicit reinsert labels "
+                    "(permutation, duplicate id, out-of-range id, re-insertion without reset): refused or the ranks, vs the model; "
+                    "non-trivial = fit with more than one cluster"},
     "C20": {"suites": [monitor.suite_monitor], "rule": RULE_MON, "proof_modules": ["BBProps.C20", "BBProofs.Monitor", "BBModel.Monitor"]},
     "C15": {"suites": [cli.suite_run, cli.suite_multiround],
             "rule": "`bb run` through typer's CliRunner in-process (and as a subprocess of /venv/bin/bb when the memory monitor is on) over random "
